@@ -170,7 +170,7 @@ func (h *history) replay() any {
 type refState struct {
 	exists   bool
 	deleted  bool
-	counters map[string]float64      // field -> sum (ints are exact in float64 for our ranges)
+	counters map[string]float64         // field -> sum (ints are exact in float64 for our ranges)
 	latest   map[string]map[string]bool // field -> set of admissible CBOR values (hex) of causally latest writes
 	heads    map[string]bool
 	fheads   map[string]map[string]bool // field -> field-level heads
